@@ -154,7 +154,10 @@ SEEDS = [
 MX_VALUES = ["-1", "0", "1", "5", "10", "abc", "1.5", " 3 ", "", "+2", "-0", "1_0", "99999999999999999999", "0x2",
              "0.3", "0.25", "1e-3", ".2", "nan", "inf", "4.999", "1e400"]
 ST_VALUES = ["ssdp:all", "SSDP:ALL", "upnp:rootdevice", DEV_UDN, DEV_UDN.lower(), DEV_TYPE, DEV_TYPE[:-1] + "1", DEV_TYPE[:-1] + "0",
-             DEV_TYPE[:-1] + "3", DEV_TYPE.upper(), SVC_TYPES[0], SVC_TYPES[0][:-1] + "2", "urn:foreign:service:X:1", "", "uuid:other", "a:b"]
+             DEV_TYPE[:-1] + "3", DEV_TYPE.upper(), SVC_TYPES[0], SVC_TYPES[0][:-1] + "2", "urn:foreign:service:X:1", "", "uuid:other", "a:b",
+             # version tokens int() accepts although they are no version numbers
+             DEV_TYPE[:-1] + "-1", DEV_TYPE[:-1] + "+1", DEV_TYPE[:-1] + "01", DEV_TYPE[:-1] + " 1", DEV_TYPE[:-1] + "1_0",
+             DEV_TYPE[:-1] + "\u0661", SVC_TYPES[0][:-1] + "+1", SVC_TYPES[0][:-1] + "00"]
 CC_VALUES = ["max-age=" + "9" * 25, "max-age=99999999999", "max-age=-5", "max-age", "max-age=١٢", "max-age = 7", "MAX-AGE=0",
              "max-age=86399999999999", "max-age=86400000000000", "no-cache"]
 LOC_VALUES = ["foo", "http://[fe80::1/x", "http://[fe80::2]:99999/x", "http://127.0.0.1/x", "", "  ", "http://[fe80::2]:80/d",
@@ -305,8 +308,26 @@ class Plugin:
             steps.append([ep, list(self._build(start, hs)), a if rng.random() < 0.8 else rng.choice(ADDRS), t])
         return {"steps": steps}
 
+    def _server_case(self, rng, n):
+        """M-SEARCH datagrams for the search responder: every kind of ST (well formed, foreign, version tokens that are
+        no version numbers) and MX, with and without MAN - "anything else is dropped" and "a dropped datagram sends nothing"."""
+        steps, t = [], 0
+        for _ in range(n):
+            t += rng.choice([0, 1, 3])
+            hs = [["HOST", "239.255.255.250:1900"], ["ST", rng.choice(ST_VALUES)]]
+            if rng.random() < 0.85:
+                hs.append(["MAN", rng.choice(['"ssdp:discover"', '"ssdp:discover"', 'ssdp:discover', '"SSDP:DISCOVER"', ""])])
+            if rng.random() < 0.6:
+                hs.append(["MX", rng.choice(MX_VALUES)])
+            rng.shuffle(hs)
+            steps.append(["EServer", list(self._build("M-SEARCH * HTTP/1.1", hs)), rng.choice(ADDRS), t])
+        return {"steps": steps}
+
     def _case(self, rng, n):
-        if rng.random() < 0.4:
+        r = rng.random()
+        if r < 0.2:
+            return self._server_case(rng, n)
+        if r < 0.55:
             return self._known_device_case(rng, n)
         steps = []
         t = 0
